@@ -23,6 +23,7 @@ import (
 	"strings"
 	"sync"
 	"testing"
+	"time"
 
 	"github.com/snower/slock/protocol"
 	"github.com/snower/slock/protocol/protobuf"
@@ -1570,6 +1571,9 @@ func w13GenCaseVariant(t *rapid.T, st *vStat, timers bool) *w13Case {
 		}
 		c.Shape = fmt.Sprintf("writer->reader:%s->%s", map[bool]string{true: "binary", false: "text"}[wb], map[bool]string{true: "binary", false: "text"}[rb])
 		conns = append(conns, g.genWriterConn(wb), g.genReaderConn(rb))
+		if g.timers {
+			conns[1].Linger = rapid.SampledFrom([]int{150, 150, 150, 150, 2300}).Draw(g.t, "readerLingerMs")
+		}
 		if g.pct("shapeThird", 20) {
 			conns = append(conns, w13GenConn(g))
 		}
@@ -1689,12 +1693,27 @@ func w13Sample(c *w13Case) interface{} {
 	return cp
 }
 
+// w13WriteInflight (child of the supervisor): leave the last cases, newest last, and the number of
+// cases started so far where the supervisor finds them if this process dies.
+type w13InflightFile struct {
+	Started int        `json:"started"`
+	Recent  []*w13Case `json:"recent"`
+}
+
+var w13Inflight w13InflightFile
+
 func w13WriteInflight(test string, c *w13Case) {
 	dir := os.Getenv("VERIF_FAILDIR")
 	if dir == "" || os.Getenv("VERIF_C13_CHILD") == "" {
 		return
 	}
-	b, err := json.Marshal(c)
+	if w13Inflight.Started++; w13Inflight.Started%250 == 0 {
+		vFlush() // the statistics of a child that dies later are not lost entirely
+	}
+	if w13Inflight.Recent = append(w13Inflight.Recent, c); len(w13Inflight.Recent) > 8 {
+		w13Inflight.Recent = w13Inflight.Recent[1:]
+	}
+	b, err := json.Marshal(&w13Inflight)
 	if err == nil {
 		_ = os.WriteFile(filepath.Join(dir, test+".inflight.json"), b, 0644)
 	}
@@ -1737,6 +1756,11 @@ func w13WireProperty(test string, timers bool) func(t *rapid.T) {
 			return
 		}
 		w13WriteInflight(test, c)
+		if n := vEnvInt("VERIF_C13_SELFTEST_CRASH", 0); n > 0 && w13Inflight.Started == n && os.Getenv("VERIF_C13_CHILD") != "" {
+			// self-test of the supervisor: die the way a stray server goroutine would
+			go func() { panic("C13 supervisor self-test") }()
+			time.Sleep(200 * time.Millisecond)
+		}
 		if fail := w13Judge(st, c, false); fail != nil {
 			vFail(t, test, fail.Key, c, "%s", fail.Msg)
 		}
@@ -1860,6 +1884,7 @@ func FuzzC13_Wire(f *testing.F) {
 		}
 	}
 	st := vstat("FuzzC13_Wire")
+	_ = os.Setenv("MALLOC_ARENA_MAX", "2") // inherited by the fuzz workers, see w13SuperviseOnce
 	// fuzz workers are separate processes that are killed, not ended: they leave their statistics in
 	// $VERIF_STATS.w<pid> every few executions and the coordinator merges those files when f.Fuzz returns
 	worker := false
@@ -1871,6 +1896,9 @@ func FuzzC13_Wire(f *testing.F) {
 	execs := 0
 	faildir := os.Getenv("VERIF_FAILDIR")
 	var recent []*w13Case // worker: the last inputs, newest last
+	if worker {
+		w13LimitAddressSpace(vEnvInt("VERIF_C13_AS_MB", 6144)) // also sets the collector's memory limit
+	}
 	if worker && faildir != "" {
 		// a worker that dies (a goroutine of the server panics) takes its stderr with it: keep the crash
 		// report and the inputs it was working on for the coordinator
